@@ -81,9 +81,12 @@ def u_b_phenotype(ctx):
         GV.taxa, GV.trait = taxa, trait
 
         class GP:
-            def gegv(self, pg):
-                calls.append(("gegv", pg))
-                return GV()
+            pass
+        _gp = GP()
+        from pybrops.model.gmod.DenseAdditiveLinearGenomicModel import DenseAdditiveLinearGenomicModel as _GM
+        import functools as _ft
+        # accepts exactly the calls the real method accepts (positional or gtobj=...)
+        _gp.gegv = loopcut.like(_ft.partial(_GM.gegv, None), lambda gtobj, **kw: (calls.append(("gegv", gtobj)), GV())[1])
 
         class Rng:
             def __init__(self):
@@ -100,7 +103,7 @@ def u_b_phenotype(ctx):
 
         from pybrops.breed.prot.pt.G_E_Phenotyping import G_E_Phenotyping as _Real
         me = loopcut.stub_of(_Real)
-        me.gpmod, me.rng = GP(), Rng()
+        me.gpmod, me.rng = _gp, Rng()
         me.nenv = nenv
         me.nrep = numpy.array(nreps, dtype="int64")
         me.var_env = barr.fresh("venv", (t,), "float64", 0, None)
@@ -193,17 +196,16 @@ def u_b_true(ctx):
             return GV()
 
         class GP:
-            def gegv(self, pg, *a, **kw):
-                calls.append(("gegv", pg))
-                return mkgv(G)
-
-            def gebv(self, pg, *a, **kw):
-                calls.append(("gebv", pg))
-                return mkgv(B)
+            pass
+        _gp = GP()
+        from pybrops.model.gmod.DenseAdditiveLinearGenomicModel import DenseAdditiveLinearGenomicModel as _GM
+        import functools as _ft
+        _gp.gegv = loopcut.like(_ft.partial(_GM.gegv, None), lambda gtobj, **kw: (calls.append(("gegv", gtobj)), mkgv(G))[1])
+        _gp.gebv = loopcut.like(_ft.partial(_GM.gebv, None), lambda gtobj, **kw: (calls.append(("gebv", gtobj)), mkgv(B))[1])
 
         from pybrops.breed.prot.pt.TruePhenotyping import TruePhenotyping as _Real
         me = loopcut.stub_of(_Real)
-        me.gpmod = GP()
+        me.gpmod = _gp
         fr = modeb.Frame(g=G)
         df = f(me, pgtok)
         e.prove(tag + ":one-record-per-taxon", len(df) == n)
